@@ -68,7 +68,7 @@ impl Prop for C16 {
         "case = validated tree of a generated document in a random layout (multi-line, CRLF, multi-byte text before names) x EVERY (line, column) from column 1 to two past the last grapheme cluster of every line, plus positions beyond the last line and (0,0), x the three filter levels. Oracle: the first symbol of the reference traversal at that level whose reported name range contains the position (lexicographic, inclusive at both ends), else nothing; compared by identity. Non-trivial = document spans >= 2 lines and some name is preceded by a multi-byte character on its line; distinct by text.".into()
     }
     fn random_cases(&self, tier: Tier) -> u64 {
-        tier.pick(2_500, 60_000)
+        tier.pick(8_000, 60_000)
     }
     fn max_bytes(&self) -> usize {
         2000
